@@ -14,6 +14,7 @@ import (
 	"strings"
 
 	goahttp "goa.design/goa/v3/http"
+	httpmw "goa.design/goa/v3/http/middleware"
 	"goa.design/goa/v3/verifsim"
 	"verif/sim/engine"
 	"verif/sim/simnet"
@@ -156,20 +157,42 @@ func runC16(t *verifsim.Tape, cfg engine.Config) *engine.Outcome {
 	nPat := 1 + t.Draw("npat", 6)
 	var pats []c16pattern
 	seen := map[string]bool{}
+	// wildcard names come from a pool (unique within a pattern): the same path shape mounted under
+	// another method usually names its wildcards differently (GET /files/{*path}, PUT /files/{*filename})
+	varNames := []string{"v1", "id", "name", "rest", "path", "file", "key", "p"}
 	for attempts := 0; len(pats) < nPat && attempts < 40; attempts++ {
 		var p c16pattern
 		p.Method = c16methods[t.Pick("method", 4, 2, 1, 1)]
-		n := t.Draw("nseg", 5)
-		vn := 0
-		for i := 0; i < n; i++ {
-			switch k := t.Draw("segk", 5); {
-			case k < 3:
-				p.Segs = append(p.Segs, seg{Lit: c16lits[t.Draw("lit", len(c16lits))]})
-			case k == 3 || i < n-1:
-				vn++
-				p.Segs = append(p.Segs, seg{Var: fmt.Sprintf("v%d", vn)})
-			default:
-				p.Segs = append(p.Segs, seg{Var: "rest", Star: true})
+		used := map[string]bool{}
+		fresh := func() string {
+			v := varNames[t.Draw("varname", len(varNames))]
+			for used[v] {
+				v += "x"
+			}
+			used[v] = true
+			return v
+		}
+		if len(pats) > 0 && t.Draw("sibling", 3) == 0 {
+			// the shape of an earlier pattern under another method, wildcards renamed
+			src := pats[t.Draw("sibling-of", len(pats))]
+			for _, sg := range src.Segs {
+				if sg.Var != "" {
+					sg.Var = fresh()
+				}
+				p.Segs = append(p.Segs, sg)
+			}
+			o.Features["sibling_patterns"]++
+		} else {
+			n := t.Draw("nseg", 5)
+			for i := 0; i < n; i++ {
+				switch k := t.Draw("segk", 5); {
+				case k < 3:
+					p.Segs = append(p.Segs, seg{Lit: c16lits[t.Draw("lit", len(c16lits))]})
+				case k == 3 || i < n-1:
+					p.Segs = append(p.Segs, seg{Var: fresh()})
+				default:
+					p.Segs = append(p.Segs, seg{Var: fresh(), Star: true})
+				}
 			}
 		}
 		var b strings.Builder
@@ -227,6 +250,14 @@ func runC16(t *verifsim.Tape, cfg engine.Config) *engine.Outcome {
 		mwCount++ // not reached when Use panics
 	}
 	var history []string
+	// goa's own chi middleware: transparent for every request that matches a pattern, redirects
+	// (301) a request that only matches with its trailing slash toggled
+	smart := t.Draw("smart-redirect-slashes", 4) == 0
+	if smart {
+		mux.Use(httpmw.SmartRedirectSlashes)
+		history = append(history, "use SmartRedirectSlashes")
+		o.Features["smart_redirect_mounted"]++
+	}
 	nBefore := t.Draw("mw-before", 3)
 	for i := 0; i < nBefore; i++ {
 		addMW()
@@ -299,12 +330,57 @@ func runC16(t *verifsim.Tape, cfg engine.Config) *engine.Outcome {
 				b.WriteString("/" + []string{"nope", "zz", "a", "users", "q"}[t.Draw("ulit", 5)])
 			}
 			path = b.String()
+			if t.Draw("unmatched-by-slash", 3) == 0 {
+				// a URL of a registered pattern with one slash too many
+				p := pats[t.Draw("which", len(pats))]
+				vals := map[string]string{}
+				for _, s := range p.Segs {
+					if s.Var != "" {
+						vals[s.Var] = pathValue(t, false)
+					}
+				}
+				method, path = p.Method, p.build(vals)+"/"
+			}
 		}
 		// reference verdict
 		var matches []int
+		strictMatches := 0 // matches that do not read a single-segment wildcard as the empty string
 		for i, p := range pats {
-			if _, ok := p.match(method, path); ok {
+			if vals, ok := p.match(method, path); ok {
 				matches = append(matches, i)
+				strict := true
+				for _, sg := range p.Segs {
+					if sg.Var != "" && !sg.Star && vals[sg.Var] == "" {
+						strict = false
+					}
+				}
+				if strict {
+					strictMatches++
+				}
+			}
+		}
+		// with SmartRedirectSlashes mounted: does the path match once its trailing slash is toggled?
+		// (a single-segment wildcard read as EMPTY is the ambiguous case: redirecting is demanded only for an
+		// unambiguous match of the toggled path, and tolerated whenever the toggled path can be read into a pattern)
+		toggledMatches, toggledLoosely := false, false
+		if smart && len(path) > 1 {
+			tp := path + "/"
+			if strings.HasSuffix(path, "/") {
+				tp = path[:len(path)-1]
+			}
+			for _, p := range pats {
+				if vals, ok := p.match(method, tp); ok {
+					toggledLoosely = true
+					strict := true
+					for _, sg := range p.Segs {
+						if sg.Var != "" && !sg.Star && vals[sg.Var] == "" {
+							strict = false
+						}
+					}
+					if strict && len(matches) == 0 {
+						toggledMatches = true
+					}
+				}
 			}
 		}
 		pathMatchesOtherMethod := false
@@ -344,6 +420,8 @@ func runC16(t *verifsim.Tape, cfg engine.Config) *engine.Outcome {
 			samples = append(samples, map[string]any{"patterns": history, "request": method + " " + path, "want_values": want, "got_handler": hit.handler, "got_vars": hit.vars, "resolved": hit.resolved, "status": resp.StatusCode})
 		}
 		switch {
+		case smart && toggledLoosely && !toggledMatches && resp.StatusCode == 301 && hit.handler == -1:
+			o.Features["smart_redirect_ambiguous_url"]++ // tolerated, see above
 		case len(matches) > 0:
 			o.Features["matched_requests"]++
 			if len(matches) > 1 {
@@ -355,8 +433,16 @@ func runC16(t *verifsim.Tape, cfg engine.Config) *engine.Outcome {
 					ok = true
 				}
 			}
+			if !ok && hit.handler == -1 && strictMatches == 0 && (resp.StatusCode == 404 || resp.StatusCode == 405) {
+				o.Features["ambiguous_empty_segment_unrouted"]++ // "/a/a/" read as /{x}/{y}/{z} with z empty: either reading is accepted
+				continue
+			}
 			if !ok {
-				o.Violate("wrong_handler", "wrong_handler", "%s %s built from pattern %q reached handler %d (status %d); reference matches %v; patterns %v", method, path, pats[wantIdx].Text, hit.handler, resp.StatusCode, matches, history)
+				built := "(none)"
+				if wantIdx >= 0 {
+					built = pats[wantIdx].Text
+				}
+				o.Violate("wrong_handler", "wrong_handler", "%s %s built from pattern %q reached handler %d (status %d); reference matches %v; patterns %v", method, path, built, hit.handler, resp.StatusCode, matches, history)
 				continue
 			}
 			ref, _ := pats[hit.handler].match(method, path)
@@ -404,6 +490,15 @@ func runC16(t *verifsim.Tape, cfg engine.Config) *engine.Outcome {
 			if len(hit.mws) != mwCount {
 				o.Violate("middleware_skipped", "middleware_skipped", "%s %s: middlewares run %v, registered %d (history %v)", method, path, hit.mws, mwCount, history)
 			}
+		case toggledMatches:
+			o.Features["smart_redirect_expected"]++
+			if hit.handler != -1 {
+				o.Violate("wrong_handler", "wrong_handler:smart-redirect", "%s %s matches no pattern but reached handler %d", method, path, hit.handler)
+			} else if resp.StatusCode != 301 {
+				o.Violate("smart_redirect", "smart_redirect:status", "%s %s matches a pattern once the trailing slash is toggled: status %d, want 301 (history %v)", method, path, resp.StatusCode, history)
+			}
+		case smart && resp.StatusCode == 301 && hit.handler == -1 && !pathMatchesOtherMethod:
+			o.Violate("smart_redirect", "smart_redirect:unexpected", "%s %s was redirected to %q although toggling its trailing slash matches no pattern (history %v)", method, path, ex.RespHeader.Get("Location"), history)
 		case !pathMatchesOtherMethod:
 			o.Features["unmatched_requests"]++
 			o.Features["notfound_accept_"+accClass]++
